@@ -359,6 +359,9 @@ impl<'a> Chk<'a> {
             Some(right) => {
                 let mut lo_i = lo;
                 for (c, k) in p.cells.iter().zip(&keys) {
+                    if lo.is_some_and(|l| *k < l) || hi.is_some_and(|h| *k >= h) {
+                        return Err("bound");
+                    }
                     let child = c.left_child.ok_or("child0")?;
                     self.walk(child, lo_i, Some(*k), depth + 1)?;
                     lo_i = Some(*k);
